@@ -372,6 +372,41 @@ fn main() {
         }
     }
 
+    // 7b. the same with long dropped digit strings of every decision shape (00..01, 10..01, 49..9, 50..0, 50..01,
+    // 9..9): the configured mode must see every dropped digit, however far behind the rounding position
+    let long_ls: Vec<usize> = if full { (2..=70).chain([100, 127, 128, 129, 151, 200, 257, 500, 1100]).collect() } else { vec![2, 3, 8, 9, 17, 18, 19, 20, 31, 32, 33, 34, 40, 63, 64, 65, 66, 100, 129, 151, 200, 257, 500] };
+    for &l in long_ls.iter() {
+        let mk = |first: char, mid: char, last: char| -> String { (0..l).map(|i| if i == 0 { first } else if i == l - 1 { last } else { mid }).collect() };
+        for tail in [mk('0', '0', '1'), mk('1', '0', '1'), mk('4', '9', '9'), mk('5', '0', '0'), mk('5', '0', '1'), mk('9', '9', '9'), mk('0', '0', '0')] {
+            for (head, sign) in [("2", 1i64), ("7", -1), ("12", 1), ("99", -1)] {
+                let n: BigInt = format!("{}{}", head, tail).parse::<BigInt>().unwrap() * sign;
+                for keep in [0usize, 1] {
+                    // `keep` fraction digits of the head stay, the tail is dropped
+                    if keep >= head.len() + 1 {
+                        continue;
+                    }
+                    let x = Dec { n: n.clone(), s: (l + keep) as i128 };
+                    let xb = bd(&x);
+                    o.checks += 1;
+                    let t = format!("{:.*}", keep, xb);
+                    let want = Dec { n: round_to_scale(&x.n, x.s, keep as i128, mode), s: keep as i128 };
+                    match recognise(&t) {
+                        Some(m) if m.exp.is_none() && m.frac_digits.len() == keep && m.to_dec().map(|v| v.eq_val(&want)) == Some(true) => {}
+                        _ => o.bad("{:.N} rounding (long dropped tail)", format!("{} N={}", x.show(), keep), want.show(), t),
+                    }
+                    o.checks += 1;
+                    let sig = head.len();
+                    let t = format!("{:.*e}", sig - 1, xb);
+                    let want = round_to_prec(&x.n, x.s, sig as u64, mode);
+                    match recognise(&t) {
+                        Some(m) if m.exp.is_some() && m.frac_digits.len() == sig - 1 && m.to_dec().map(|v| v.eq_val(&want)) == Some(true) => {}
+                        _ => o.bad("{:.Ne} rounding (long dropped tail)", format!("{} N={}", x.show(), sig - 1), want.show(), t),
+                    }
+                }
+            }
+        }
+    }
+
     // 8. integer padding applied iff the padding does not exceed the configured limit
     for z in 0..=(padding + 3).min(1100) {
         if padding > 20 && z > 4 && z < padding - 4 {
